@@ -185,7 +185,7 @@ class trellis_create:
     modifies = []
 
     @staticmethod
-    def ensures(self, node_type, creator, label, result, kwargs=None):
+    def assume_post(self, node_type, creator, label, result, kwargs=None):
         c = sym.cur()
         db = db_of(self)
         c.event("create", node_type=result._cls, creator=creator, label=label, node=result, kwargs=kwargs or {})
